@@ -113,6 +113,26 @@ def compare_rows(ctx, prob, rows_eff, ll, spec, posterior=False):
     return info
 
 
+def prehistory(ctx, spec, joker, smp):
+    """the same TheJoker / prior object is first used on a related data set (same epochs and velocities with other
+    uncertainties, or the same data expressed in another velocity unit): later results must not depend on that"""
+    pre = spec.get("prehistory")
+    if not pre:
+        return
+    spec2 = dict(spec)
+    if pre == "errors":
+        spec2["surveys"] = [dict(sv, err=[e * 3.0 for e in sv["err"]]) for sv in spec["surveys"]]
+    else:
+        alt = "m/s" if spec["surveys"][0]["unit"] != "m/s" else "km/s"
+        spec2["surveys"] = [dict(sv, unit=alt, rv=[float(og.conv(x, sv["unit"], alt)) for x in sv["rv"]],
+                                 err=[float(og.conv(x, sv.get("err_unit", sv["unit"]), alt)) for x in sv["err"]])
+                            for sv in spec["surveys"]]
+        for sv in spec2["surveys"]:
+            sv.pop("err_unit", None)
+    with ctx.sut("marginal_ln_likelihood on a related data set (history)"):
+        joker.marginal_ln_likelihood(gens.build_data(spec2), smp, in_memory=True)
+
+
 def body_factory(ctx):
     import thejoker as tj
 
@@ -125,22 +145,7 @@ def body_factory(ctx):
         rows_eff = effective_rows(smp, prob.data_unit)
         path = spec.get("path", "mem")
         joker = tj.TheJoker(prior)
-        pre = spec.get("prehistory")
-        if pre:
-            # the same TheJoker / prior object has been used on a related data set before (same epochs and
-            # velocities, other uncertainties; or the same data expressed in another velocity unit)
-            spec2 = dict(spec)
-            if pre == "errors":
-                spec2["surveys"] = [dict(sv, err=[e * 3.0 for e in sv["err"]]) for sv in spec["surveys"]]
-            else:
-                alt = "m/s" if spec["surveys"][0]["unit"] != "m/s" else "km/s"
-                spec2["surveys"] = [dict(sv, unit=alt, rv=[float(og.conv(x, sv["unit"], alt)) for x in sv["rv"]],
-                                         err=[float(og.conv(x, sv.get("err_unit", sv["unit"]), alt)) for x in sv["err"]])
-                                    for sv in spec["surveys"]]
-                for sv in spec2["surveys"]:
-                    sv.pop("err_unit", None)
-            with ctx.sut("marginal_ln_likelihood on a related data set (history)"):
-                joker.marginal_ln_likelihood(gens.build_data(spec2), smp if spec.get("row_units", {}).get("s") else smp, in_memory=True)
+        prehistory(ctx, spec, joker, smp)
         with ctx.sut("marginal_ln_likelihood[%s]" % path):
             if path == "mem":
                 ll = joker.marginal_ln_likelihood(data, smp, in_memory=True)
